@@ -31,6 +31,7 @@ func init() {
 			{ID: "C16.R9", Floor: 2, Run: typeParamReflection, Text: "reflection of type parameters: reflect.TypeOf is never applied to a value of bare type-parameter type (nil for interface type arguments, so distinct types collapse into one registry key); the idiom reflect.TypeOf((*T)(nil)).Elem() is followed by Elem()"},
 			{ID: "C16.R10", Floor: 2, Run: typeArgPassedThrough, Text: "TypeID / ResourceTypeID hand the reflect.Type they were given to the registry unchanged (= C20.R12)"},
 			{ID: "C16.R11", Floor: 2, Run: narrowCounters, Text: "narrow counters fit their limit (= C09.R11): per-chunk use counts of the id maps and the lock-bit counters cannot wrap for the id limit of the build"},
+			{ID: "C16.R12", Floor: 1, Run: layoutCountFromCount, Text: "the layout count covers every registered id: wherever a size is rounded up by layoutChunkSize its first argument is the registry's Count() itself"},
 		},
 	})
 }
